@@ -2,6 +2,7 @@ package main
 
 import (
 	"go/ast"
+	"go/types"
 	"go/token"
 	"strings"
 )
@@ -506,16 +507,61 @@ func runC02(c *RuleCtx) {
 		if add == nil {
 			continue
 		}
-		// one critical section: no Unlock between entry lock and exit other than deferred
-		unl := 0
-		for _, cs := range p.FuncCalls(add, false) {
-			if id, op := p.mutexOfCall(add, cs.Call); id == impl.mutex && (op == "Unlock" || op == "RUnlock") {
-				if _, isDefer := p.parents[cs.Call].(*ast.DeferStmt); !isDefer {
-					unl++
+		// one critical section: no release of the lock on any path between a read of the map and a later
+		// store into it (form-independent: deferred or explicit unlocks on the exits are both fine)
+		g := p.Graph(add)
+		var unlocks, reads, writes []Point
+		for _, blk := range g.C.Blocks {
+			for i, n := range blk.Nodes {
+				if _, isDefer := n.(*ast.DeferStmt); isDefer {
+					continue
+				}
+				for _, cs := range p.CallsIn(add, n, false) {
+					if id, op := p.mutexOfCall(add, cs.Call); id == impl.mutex && (op == "Unlock" || op == "RUnlock") {
+						unlocks = append(unlocks, Point{blk, i})
+					}
+				}
+				isStore := false
+				for _, st := range p.StoresTo(impl.field) {
+					if st.Fn == add && contains(n, st.Node) {
+						isStore = true
+					}
+				}
+				if isStore {
+					writes = append(writes, Point{blk, i})
+					continue
+				}
+				touches := false
+				ast.Inspect(n, func(x ast.Node) bool {
+					if e, ok := x.(ast.Expr); ok && !touches {
+						if se, ok := e.(*ast.SelectorExpr); ok {
+							if sel := add.Info().Selections[se]; sel != nil && sel.Kind() == types.FieldVal && fieldOwnerName(sel) == impl.field {
+								touches = true
+							}
+						}
+					}
+					return !touches
+				})
+				if touches {
+					reads = append(reads, Point{blk, i})
 				}
 			}
 		}
-		c.Check(unl == 0, "R02.3", add.Name, "single critical section", add.Decl, "the lock is released only by the deferred unlock", "the lock is released inside Add: lookup and store are not atomic")
+		unl := 0
+		for _, u := range unlocks {
+			for _, r := range reads {
+				for _, w := range writes {
+					if g.reach(r.After(), u, nil, nil) && g.reach(u.After(), w, nil, nil) {
+						unl++
+					}
+				}
+			}
+		}
+		if len(reads) == 0 || len(writes) == 0 {
+			c.Undecided("R02.3", add.Name, "single critical section", add.Decl, "no lookup/store pair of the cache map found in Add")
+			continue
+		}
+		c.Check(unl == 0, "R02.3", add.Name, "single critical section", add.Decl, "no path from the lookup to the store releases the lock", "the lock is released between the lookup and the store: the test-and-set is not atomic")
 		// return value: true only when the key was absent
 		absent := AtomLookupOK("key present in m", isFieldOf(impl.field), nil)
 		inspectNoLit(add.Body, func(x ast.Node) bool {
